@@ -140,6 +140,11 @@ class Parser:
             m.PutFieldContents(name, t, list(items))
 
 
+def E(text):
+    """error marker for an output column (columns are space separated)"""
+    return "ERR:" + str(text).replace(" ", "_").replace("\n", "_")
+
+
 def recv_exact(conn, n):
     buf = b""
     while len(buf) < n:
@@ -173,9 +178,9 @@ def main():
                 r[0] = dump(m)
                 r[1] = m.GetFlattenedBuffer().hex() or "-"
                 if m.FlattenedSize() != len(m.GetFlattenedBuffer()):
-                    r[1] = "ERR:FlattenedSize()=%d but Flatten() wrote %d bytes" % (m.FlattenedSize(), len(m.GetFlattenedBuffer()))
+                    r[1] = E("FlattenedSize()=%d but Flatten() wrote %d bytes" % (m.FlattenedSize(), len(m.GetFlattenedBuffer())))
             except Exception as e:  # noqa: BLE001
-                r[0] = "ERR:" + type(e).__name__ + ":" + str(e).replace(" ", "_")
+                r[0] = E(type(e).__name__ + ":" + str(e))
         if "n" in flags:
             try:
                 p = Parser(dtext)
@@ -183,56 +188,106 @@ def main():
                 native[idx] = nm
                 r[2] = nm.GetFlattenedBuffer().hex()
             except Exception as e:  # noqa: BLE001
-                r[2] = "ERR:" + type(e).__name__ + ":" + str(e).replace(" ", "_")
+                r[2] = E(type(e).__name__ + ":" + str(e))
         res[idx] = r
 
     if want_mtt:
-        try:
-            import message_transceiver_thread as mttmod
-            lst = socket.socket(socket.AF_INET, socket.SOCK_STREAM)
-            lst.bind(("127.0.0.1", 0))
-            lst.listen(1)
-            port = lst.getsockname()[1]
-            mtt = mttmod.MessageTransceiverThread("127.0.0.1", port)
-            mtt.start()
-            lst.settimeout(30)
-            conn, _ = lst.accept()
-            conn.settimeout(60)
-            tcases = [c for c in cases if "t" in c[1] and c[0] in native]
-            # Python -> wire
-            for c in tcases:
-                mtt.SendOutgoingMessage(native[c[0]])
-            for c in tcases:
-                hdr = recv_exact(conn, 8)
-                blen = struct.unpack("<L", hdr[0:4])[0]
-                body = recv_exact(conn, blen) if blen <= (1 << 24) else b""
-                res[c[0]][3] = hdr.hex()
-                res[c[0]][4] = body.hex() or "-"
-            # wire -> Python: the frames the C++ MessageIOGateway produced
-            for c in tcases:
-                conn.sendall(bytes.fromhex(c[3]) + bytes.fromhex(c[2]))
-            got = 0
-            deadline = time.monotonic() + 120
-            while got < len(tcases) and time.monotonic() < deadline:
-                ev = mtt.GetNextIncomingEvent()
+        import message_transceiver_thread as mttmod
+        import select
+        sentinel = message.Message(0x53454E54)  # 'SENT', no fields: marks the end of what the thread sent for one case
+        sentinel_frame = struct.pack("<2L", 12, mttmod.MUSCLE_MESSAGE_ENCODING_DEFAULT) + struct.pack("<3L", message.CURRENT_PROTOCOL_VERSION, 0x53454E54, 0)
+
+        class Link:
+            """one MessageTransceiverThread connected to a plain listening socket of this process"""
+
+            def __init__(self):
+                self.lst = socket.socket(socket.AF_INET, socket.SOCK_STREAM)
+                self.lst.bind(("127.0.0.1", 0))
+                self.lst.listen(1)
+                self.mtt = mttmod.MessageTransceiverThread("127.0.0.1", self.lst.getsockname()[1])
+                self.mtt.start()
+                self.lst.settimeout(30)
+                self.conn, _ = self.lst.accept()
+                self.conn.settimeout(10)
+                self.conn.setsockopt(socket.IPPROTO_TCP, socket.TCP_NODELAY, 1)
+                self.quickack()
+
+            def quickack(self):
+                # the thread sends header and body with separate send() calls; without immediate ACKs each Message would cost a
+                # Nagle / delayed-ACK stall of ~40 ms (speed only, no effect on the bytes)
+                if hasattr(socket, "TCP_QUICKACK"):
+                    self.conn.setsockopt(socket.IPPROTO_TCP, socket.TCP_QUICKACK, 1)
+
+            def close(self):
+                try:
+                    self.conn.close()
+                    self.lst.close()
+                    self.mtt.Destroy()
+                except Exception:  # noqa: BLE001
+                    pass
+
+            def next_message(self, timeout):
+                """next Message delivered by the thread (events are skipped); None on timeout / disconnect"""
+                end = time.monotonic() + timeout
+                while True:
+                    ev = self.mtt.GetNextIncomingEvent()
+                    if ev is None:
+                        left = end - time.monotonic()
+                        if left <= 0:
+                            return None
+                        r, _, _ = select.select([self.mtt.GetNotificationSocket()], [], [], left)
+                        if r:
+                            try:
+                                self.mtt.GetNotificationSocket().recv(1024)
+                            except OSError:
+                                pass
+                        continue
+                    if isinstance(ev, int):
+                        if ev == mttmod.MTT_EVENT_DISCONNECTED:
+                            return None
+                        continue
+                    return ev
+
+        link = None
+        for c in cases:
+            if "t" not in c[1] or c[0] not in native:
+                continue
+            r = res[c[0]]
+            try:
+                if link is None:
+                    link = Link()
+                # Python -> wire: everything the thread writes for this Message, up to the sentinel's frame
+                link.mtt.SendOutgoingMessage(native[c[0]])
+                link.mtt.SendOutgoingMessage(sentinel)
+                data = b""
+                while not data.endswith(sentinel_frame):
+                    chunk = link.conn.recv(65536)
+                    link.quickack()
+                    if not chunk:
+                        raise IOError("connection closed by MessageTransceiverThread")
+                    data += chunk
+                data = data[:-len(sentinel_frame)]
+                r[3] = data[0:8].hex() or "-"
+                r[4] = data[8:].hex() or "-"
+                # wire -> Python: the frame + body the C++ MessageIOGateway produced
+                link.conn.sendall(bytes.fromhex(c[3]) + bytes.fromhex(c[2]))
+                ev = link.next_message(10)
                 if ev is None:
-                    time.sleep(0.002)
-                    continue
-                if isinstance(ev, int):
-                    if ev == mttmod.MTT_EVENT_DISCONNECTED:
-                        break
-                    continue
-                res[tcases[got][0]][5] = dump(ev)
-                got += 1
-            for c in tcases[got:]:
-                res[c[0]][5] = "ERR:no_Message_delivered_by_MessageTransceiverThread"
-            conn.close()
-            lst.close()
-            mtt.Destroy()
-        except Exception as e:  # noqa: BLE001
-            for c in cases:
-                if "t" in c[1] and res[c[0]][5] == "-":
-                    res[c[0]][5] = "ERR:mtt:" + type(e).__name__ + ":" + str(e).replace(" ", "_")
+                    r[5] = E("no Message delivered by MessageTransceiverThread")
+                    link.close()
+                    link = None
+                else:
+                    r[5] = dump(ev)
+            except Exception as e:  # noqa: BLE001
+                if r[3] == "-":
+                    r[3] = E("mtt:" + type(e).__name__ + ":" + str(e))
+                else:
+                    r[5] = E("mtt:" + type(e).__name__ + ":" + str(e))
+                if link is not None:
+                    link.close()
+                link = None
+        if link is not None:
+            link.close()
     with open(outfile, "w") as f:
         for c in cases:
             f.write(c[0] + " " + " ".join(res[c[0]]) + "\n")
